@@ -224,6 +224,18 @@ def _case(draw):
             ]
         else:
             spec = draw(c05.kern_font())
+        if kind == "rich" and F.chance(draw, 1, 6) and not any(g["name"] in ("pmA", "pmB") for g in spec["glyphs"]):
+            # a ligature mark built only from mark components; which component is "closest to the origin" (and so promoted to base by PropagateAnchors)
+            # depends on exact outline bounds - one mark has a cubic whose control points reach far beyond its outline
+            spec["glyphs"] += [
+                {"name": "pmA", "width": 0, "unicodes": [], "anchors": [{"name": "_top", "x": 20, "y": 10}, {"name": "top", "x": 20, "y": 90}],
+                 "contours": [[[10, 10, "curve"], [60, 10, "line"], [60, 60, "line"], [10, 60, "line"], [-80, 60, None], [-80, 10, None]]]},  # outline reaches x=-57.5, its control points x=-80
+                {"name": "pmB", "width": 0, "unicodes": [], "anchors": [{"name": "_top", "x": 60, "y": 50}, {"name": "top", "x": 60, "y": 130}],
+                 "contours": [[[50, 50, "line"], [90, 50, "line"], [70, 100, "line"]]]},
+                {"name": "pmA_pmB", "width": 0, "unicodes": [], "components": [{"base": "pmA", "t": [1, 0, 0, 1, 0, 0]}, {"base": "pmB", "t": [1, 0, 0, 1, 0, 0]}]},
+            ]
+            spec.setdefault("lib", {})["com.github.googlei18n.ufo2ft.filters"] = [{"name": "propagateAnchors", "pre": draw(st.booleans())}]
+            spec["_ligmark"] = True
         if F.chance(draw, 1, 4):
             # vertical metrics with only two distinct vertical origins: ties in "the most frequent origin" (VORG default) are likely
             spec.setdefault("info", {}).update({"openTypeVheaVertTypoAscender": 500, "openTypeVheaVertTypoDescender": -500, "openTypeVheaVertTypoLineGap": 0})
@@ -262,9 +274,14 @@ def _case(draw):
         # "compile twice": the very same call (and, in the history run, the very same option objects) repeated
         ops[draw(st.integers(1, len(ops) - 1))] = json.loads(json.dumps(ops[0]))
     config = draw(st.sampled_from(["other-lib", "disk-same", "disk-other-writer", "disk-other-reader", "inplace", "inplace", "inplace-twice"]))
+    ligmark = src.pop("_ligmark", False)
     vertical = src.pop("_vertical", False)
     if vertical and "compileOTF" not in [o["fn"] for o in ops]:
         ops[0] = {"fn": "compileOTF", "opts": {}}
+    if ligmark:
+        config = "other-lib"
+        ops[0]["opts"].pop("filters", None)
+        ops[0]["opts"].pop("skipExportGlyphs", None)
     if src.pop("_contextual", False):
         config = draw(st.sampled_from(["inplace", "inplace", "disk-same", "other-lib"]))
         ops[0]["opts"].pop("featureWriters", None)
@@ -370,6 +387,8 @@ def run_case(case, ctx):
         ctx.label("designspace-fontinfo-override")
     if any("ftConfig" in op["opts"] for op in case["ops"]):
         ctx.label("ftConfig")
+    if any(g["name"] == "pmA_pmB" for g in src["glyphs"]):
+        ctx.label("ligature-mark-composite-with-overshooting-control-points")
     if "openTypeVheaVertTypoAscender" in src.get("info", {}):
         ctx.label("vertical-metrics-with-tied-origins")
     if len(src.get("groups", {})) >= 16 and any(v for op in case["ops"] for v in op["opts"].get("ftConfig", {}).values()):
